@@ -6,7 +6,7 @@
 # 1..4-cycle burst window and crosses its multi-million-cycle repeat window with C-side holds).  One action = one
 # envelope segment (signalling present for d cycles / absent for g cycles), d and g from menus that straddle every window
 # edge by -2..+2 cycles, plus 1..2-cycle glitches, plus over-long signalling whose excess over one / two window lengths
-# lies again inside the window, just beyond it, and far beyond; BFS over all segment sequences up to a depth of 3-5 bursts.
+# lies again inside the window, just beyond it, and far beyond, and pauses just / twice / far beyond the repeat window; BFS over all segment sequences up to a depth of 3-5 bursts.
 #
 # Oracle (from the statement; windows taken from the pattern object's documented t_min/t_max, exact rational arithmetic):
 #   a signal seen high at d consecutive clock edges lasted between d-1 and d+1 clock periods, so a burst of d cycles is
@@ -130,6 +130,9 @@ class DetectorSpec(Spec):
                 P = {A - 1, A, midp, B, B + 1}
             else:
                 P = {A - 2, A - 1, A, A + 1, midp, B - 1, B, B + 1, B + 2}
+            # pauses beyond the repeat window: just beyond (+2: a detector may notice the time-out one cycle late), about
+            # two windows, far beyond - "good iteration, over-long pause, good iteration" must not be reported
+            P |= {B + 2, 2 * B + 5} if menu != "wide" else {B + 2, B + 3, 2 * B + 5, 4 * B + 3}
             self.P = sorted(P)
             self.G = [1] if menu != "wide" else [1, 2]           # glitch gaps
             # gaps that do not depend on the length of the preceding burst (a mid-window period after a mid-window burst...)
